@@ -46,10 +46,12 @@
 (*                                                                         *)
 (* Known findings: KFTable below, one entry per defect site, identified by *)
 (* outcome + format(s) + source file of the panic + constant head of its   *)
-(* message + the reader module(s) (crate::module of the innermost reader   *)
-(* function on the stack) it is reached from; for a refused allocation the *)
-(* module of the requesting function; a hang has neither and is identified *)
-(* by format + outcome.  A known id only explains the *outcome* of a       *)
+(* message (up to the first ':', '(' or digit: names the assertion and the *)
+(* slice / index form) + the innermost reader *function(s)* on the stack   *)
+(* it is reached from (exact symbol names; a panic with a listed message   *)
+(* in a listed file but reached from another function is a new site and is *)
+(* not masked); for a refused allocation the requesting function; a hang   *)
+(* has neither and is identified by format + outcome.  A known id only explains the *outcome* of a       *)
 (* session (and the absence of further batches); any other deviation, an   *)
 (* unknown site, or an ill-formed batch is a REJECT.                       *)
 (***************************************************************************)
@@ -180,7 +182,7 @@ KFTable == {
 
 KFMatch(k, e) ==
   /\ e.outcome = k.outcome /\ e.fmt \in k.fmts
-  /\ e.wfile = k.wfile /\ e.msg = k.msg /\ e.fmod \in k.fmods
+  /\ e.wfile = k.wfile /\ e.msg = k.msg /\ e.fn \in k.fns
 
 KF(e) == IF \E k \in KFTable : KFMatch(k, e) THEN (CHOOSE k \in KFTable : KFMatch(k, e)).id ELSE ""
 
